@@ -47,8 +47,10 @@ def shared_delegate(s):
         if depth > 12:
             return
         for c in children(doc):
+            if c in path or c == "targets":
+                continue        # a back edge closes a cycle; it is not a second path to the role
             count[c] = count.get(c, 0) + 1
-            if c in by_role and c not in path:
+            if c in by_role:
                 walk(by_role[c], depth + 1, path + [c])
     walk(top, 0, [])
     return any(v >= 2 for v in count.values())
@@ -139,6 +141,44 @@ def gen(chk):
         s.cycle(r, files, limits={"updates": 1}, fuel=40)
         out.append(("cyclic-%s" % shape, s, {"expect": "terminates", "delegations": len(dl) + 1, "updates": 1,
                                              "risky": True}))
+    # (e2) cycles whose roles also have leaf siblings; leaves with no "delegations" member at all (as other TUF
+    # implementations write them) and with an empty one (as tough's editor writes them), before and after the
+    # role that closes the cycle; random graphs with back edges
+    def graph_case(tag, edges, nodeleg):
+        """edges: {role: [children]} with "targets" as the root; nodeleg: roles written without a delegations member"""
+        s = scen.Scen()
+        names = sorted({n for n in edges if n != "targets"} | {c for cs_ in edges.values() for c in cs_ if c != "targets"})
+        dl = []
+        for n in names:
+            ch = edges.get(n, [])
+            if ch:
+                dg = deleg([7], [drole(c) for c in ch])
+            else:
+                dg = None if n in nodeleg else deleg([7], [])
+            dl.append((n, s.targets(version=1, targets=[], sigs=scen.valid([7]), delegations=dg)))
+        r, ts, snap, tgt, files = repo_with(s, tgt_kw={"delegations": deleg([7], [drole(c) for c in edges["targets"]])},
+                                            delegated=dl)
+        s.cycle(r, files, limits={"updates": 1}, fuel=40)
+        nedges = sum(len(v) for v in edges.values())
+        out.append(("cyclic-%s" % tag, s, {"expect": "terminates", "delegations": nedges, "updates": 1, "risky": True}))
+    for nodeleg in ((), ("l", "m")):
+        graph_case("leaf-first", {"targets": ["a"], "a": ["l", "b"], "b": ["m", "a"]}, nodeleg)
+        graph_case("leaf-last", {"targets": ["a"], "a": ["b", "l"], "b": ["a", "m"]}, nodeleg)
+        graph_case("leaf-self", {"targets": ["a"], "a": ["l", "a"]}, nodeleg)
+        graph_case("leaf-top", {"targets": ["l", "a"], "a": ["m", "targets"]}, nodeleg)
+        graph_case("leaf-long", {"targets": ["a"], "a": ["l", "b"], "b": ["m", "c"], "c": ["l2", "a"]}, nodeleg + ("l2",) if nodeleg else ())
+    for i in range(12 if chk.tier == "quick" else 150):
+        k = rng.randint(2, 4)
+        inner = ["n%d" % j for j in range(k)]
+        leaves = ["x%d" % j for j in range(rng.randint(1, 3))]
+        edges = {"targets": rng.sample(inner + leaves, rng.randint(1, 2))}
+        if not any(c in inner for c in edges["targets"]):
+            edges["targets"].append(inner[0])
+        for n in inner:
+            pool = inner + leaves
+            edges[n] = [rng.choice(pool) for _ in range(rng.randint(1, 3))]
+            edges[n] = list(dict.fromkeys(edges[n]))
+        graph_case("random", edges, tuple(l for l in leaves if rng.random() < 0.6))
     # (f) DAG-shaped delegations: every role delegates to all later ones (F15)
     for k in (2, 3, 4, 5, 6):
         s = scen.Scen()
